@@ -16,7 +16,7 @@ RULE = ('Generated: rule-conforming base structures of straight wires (trees, st
         'junctions of >= 3 ends the wire-end currents), far field (complex, 6 directions) and near field (3 points) '
         'agree to 5e-4 (conditioning gate).  Non-trivial = the variant reverses a wire at a junction, changes which '
         'wire owns a junction pulse, or splits a wire.')
-BUDGET = {'quick': {'examples': 1600, 'wall': 220}, 'thorough': {'examples': 40000, 'wall': 1500}}
+BUDGET = {'quick': {'examples': 3200, 'wall': 220}, 'thorough': {'examples': 60000, 'wall': 1500}}
 ASSUMPTIONS = ['tolerance 5e-4 up to cond 1e3, 5e-7*cond up to 1e5, beyond excluded (statement)',
                'domain of the statement: unjoined wires >= 2 segments apart, one wire end per ground point']
 LABEL_FLOORS = {'reversal-at-junction': 0.3, 'split': 0.3, 'reorder': 0.5, 'env-ideal': 0.2, 'grounded-end2-in-variant': 0.05,
